@@ -71,12 +71,15 @@ class World:
     PROBES_EXPECTED = ["multi-segment-split", "non-adjacent-indices", "descending-indices", "concat", "append-op",
                        "idle-qubits", "initial-state", "peer-fault", "after-peer-fault", "phase-op", "wrapper-gate",
                        "custom-gate", "empty-circuit", "unitary", "stepwise", "arity>=3", "rejected-request", "inplace-backend",
-                       "symbolic-circuit", "alloc-fault", "grown-from-shared-list"]
+                       "symbolic-circuit", "alloc-fault", "grown-from-shared-list", "register-wider-than-8"]
 
     # ------------------------------------------------------------ generation
     def gen_plan(self, seed, tier):
         r = random.Random(seed)
         n = r.choice([1, 2, 2, 3, 3, 3, 4, 4]) if r.random() > 0.05 else 5
+        wide = r.random() < 0.06
+        if wide:
+            n = r.choice([9, 9, 10])   # gates whose qubits lie nine or more register positions apart
         sims = [{"kind": "symbolic"}]
         for _ in range(r.randint(1, 2)):
             fam = r.choice(FAMILIES)
@@ -95,9 +98,11 @@ class World:
         n_steps = r.randint(5, 25)
         steps = []
         n_ops_max = 12 if n <= 3 else 8
+        if wide:
+            n_ops_max = 3
         def mk():
             nn = r.choice([n, n, n, max(1, n - 1)])
-            c = gen.rand_circuit(r, nn, r.choice([0, 1, 2, 3, 5, 8, n_ops_max]), phase_ops=cfg["phase_ops"],
+            c = gen.rand_circuit(r, nn, r.choice([0, 1, 2, 3, 5, 8, n_ops_max]) if not wide else r.choice([1, 2, 3]), phase_ops=cfg["phase_ops"] if not wide else 0.0,
                                  wrappers=cfg["wrappers"], rich=True, exclude=cfg["exclude"], custom=0.12,
                                  max_arity=4)
             return {"op": "mk", "args": {"c": c}}
@@ -303,6 +308,8 @@ class World:
         nonunit = any("gate" in o and _nonunitary(o["gate"]) for o in spec["ops"])
         ent = self._add(ctx, st, circ, ops, n, nonunit, "construct")
         self._note_features(ctx, st, ent)
+        if n > 8:
+            ctx.probe("register-wider-than-8")
         ctx.log("mk", "ok", n=n, n_ops=len(ops))
 
     def _do_mk_grow(self, ctx, st, step, a):
